@@ -29,8 +29,23 @@ def load(threads=None):
     raise RuntimeError('mjxload.load() must be called before ck.lib()/mj.load()')
   threads = threads or int(os.environ.get('VERIF_JAX_THREADS', '4'))
   flags = os.environ.get('XLA_FLAGS', '')
-  if 'intra_op_parallelism_threads' not in flags:
-    os.environ['XLA_FLAGS'] = (flags + ' --xla_cpu_multi_thread_eigen=false intra_op_parallelism_threads=%d' % threads).strip()
+  if 'xla_cpu_multi_thread_eigen' not in flags:
+    flags = (flags + ' --xla_cpu_multi_thread_eigen=false').strip()
+  # XLA sizes its CPU thread pools from the affinity mask: restrict this process to `threads` cores (shared machine)
+  try:
+    cur = sorted(os.sched_getaffinity(0))
+    if len(cur) > threads:
+      off = (os.getpid() % max(1, len(cur) // threads)) * threads
+      os.sched_setaffinity(0, set(cur[off:off + threads]))
+  except Exception:
+    pass
+  if 'xla_backend_optimization_level' not in flags:
+    # jaxlib 0.11.1 CPU: at the default LLVM optimisation level the compiled vmap(mjx.forward) SEGFAULTS for some
+    # generated models (vmap of constraint.make_constraint with ball limits + mixed-condim pyramidal contacts; each
+    # _efc_* function alone is fine, and the un-vmapped function is fine).  Level 0 avoids the crash; it only changes
+    # how LLVM optimises the same HLO, so results stay IEEE-double evaluations of the same program.
+    flags += ' --xla_backend_optimization_level=0'
+  os.environ['XLA_FLAGS'] = flags
   os.environ.setdefault('JAX_PLATFORMS', 'cpu')
   os.environ.setdefault('NPROC', str(threads))
   os.environ.setdefault('OMP_NUM_THREADS', str(threads))
@@ -43,6 +58,8 @@ def load(threads=None):
   # backend compile; tracing the (possibly mutated) MJX python sources still happens on every run.
   cdir = os.path.join(vb.CACHE, 'jax')
   try:
+    if os.environ.get('VERIF_JAX_CACHE', '1') == '0':
+      raise RuntimeError('cache disabled')
     os.makedirs(cdir, exist_ok=True)
     jax.config.update('jax_compilation_cache_dir', cdir)
     jax.config.update('jax_persistent_cache_min_compile_time_secs', 1.0)
